@@ -223,6 +223,11 @@ func (f *Frame) checkMeasure(li *loopInfo, phiVal func(*ssa.Phi) Val, phis []*ss
 	}
 	c := vc.contract.LoopDecr[li.ordinal]
 	if c == nil {
+		// `for range` over a slice, string or map visits finitely many elements (the bound is
+		// evaluated once): such loops terminate by the language definition
+		if c := li.header.Comment; c == "rangeindex.loop" || c == "rangeiter.loop" {
+			return
+		}
 		if vc.contract.Terminates {
 			f.oblige(fmt.Sprintf("dec:loop%d", li.ordinal), "false", fmt.Sprintf("loop %d has no decreases clause", li.ordinal), li.header.Instrs[0].Pos(), nil, true)
 		}
